@@ -116,13 +116,18 @@ func genC03(rng *rand.Rand, n int, emit func(Case), dist map[string]int) {
 				for _, r := range rs {
 					if r.method == rNF && rMatch(r.pattern, rp) {
 						cover = append(cover, r.pattern)
-						shared := false
+						// known finding D12 needs: the not-found route shares its node with method handlers AND another,
+						// higher-priority handler node matches the whole path as well (so this node is not the first best match)
+						shared, other := false, false
 						for _, r2 := range rs {
 							if r2.method != rNF && rKey(rRoute{"", r2.pattern}) == rKey(rRoute{"", r.pattern}) {
 								shared = true
 							}
+							if r2.method != rNF && rKey(rRoute{"", r2.pattern}) != rKey(rRoute{"", r.pattern}) && rMatch(r2.pattern, rp) {
+								other = true
+							}
 						}
-						onHandlerNode = onHandlerNode && shared
+						onHandlerNode = onHandlerNode && shared && other
 					}
 				}
 				ok, why = false, fmt.Sprintf("custom not-found route(s) %q cover %q but the answer is %s", cover, rp, o)
